@@ -125,6 +125,7 @@ type NodeOpts struct {
 	// sequence, real durable effects), then wire decorated services on the State it opened.
 	ViaProvider bool
 	CommSeed    uint64
+	Mnemonic    string
 }
 
 // WireHot (re)builds the hot node services on top of st/board, exactly in the order
@@ -211,6 +212,9 @@ func NewNode(idx int, name string, seed uint64, board Board, opt NodeOpts) (*Nod
 		ResultCache: map[string][]byte{}}
 	_ = n.Keys.PutKeys(name, n.KeyPair)
 	n.Mnemonic = MnemonicFor(sched.Derive(seed, 0xC01D, uint64(idx)))
+	if opt.Mnemonic != "" {
+		n.Mnemonic = opt.Mnemonic
+	}
 	var inner state.State
 	if opt.UseLevelDB {
 		n.DBDir = filepath.Join(opt.Dir, fmt.Sprintf("hot_%d", idx))
